@@ -13,6 +13,8 @@ META["outside"] = list(C1.META["outside"]) + [
     "error messages and exception classes (only success/failure is compared)"]
 prechecks = C1.prechecks
 
+SERIAL_TRIAGE = True  # confirm() uses in-process substrate state (history search)
+
 
 def confirm(part, kwargs, native):
     if part.module.endswith("cont"):
